@@ -96,3 +96,46 @@ Section NutsFloat.
     eapply leaf_in_good; eauto.
   Qed.
 End NutsFloat.
+
+(** ---- Metropolis: the coded acceptance test on ties ---- *)
+
+Lemma SFcompare_antisym : forall a b,
+  SFcompare b a = match SFcompare a b with Some c => Some (CompOpp c) | None => None end.
+Proof.
+  intros a b. destruct a as [s1|s1| |s1 m1 e1], b as [s2|s2| |s2 m2 e2]; simpl; try reflexivity;
+    try (destruct s1; reflexivity); try (destruct s2; reflexivity);
+    try (destruct s1, s2; reflexivity).
+  destruct s1, s2; simpl; try reflexivity.
+  - rewrite (Z.compare_antisym e1 e2). destruct (e1 ?= e2)%Z; simpl; try reflexivity.
+    change (Pos.compare_cont Eq m2 m1) with (Pos.compare_cont (CompOpp Eq) m2 m1).
+    rewrite <- (Pos.compare_cont_antisym m1 m2 Eq). reflexivity.
+  - rewrite (Z.compare_antisym e1 e2). destruct (e1 ?= e2)%Z; simpl; try reflexivity.
+    change (Pos.compare_cont Eq m2 m1) with (Pos.compare_cont (CompOpp Eq) m2 m1).
+    rewrite <- (Pos.compare_cont_antisym m1 m2 Eq). reflexivity.
+Qed.
+
+Lemma not_nan_cmp : forall x, is_nan x = false -> Prim2SF x <> S754_nan.
+Proof.
+  intros x H E. unfold is_nan in H. rewrite eqb_spec, E in H. discriminate.
+Qed.
+
+Theorem tie_accepts : forall e u, is_nan e = false -> is_nan u = false ->
+  negb (e <? u)%float = (u <=? e)%float.
+Proof.
+  intros e u He Hu. apply not_nan_cmp in He. apply not_nan_cmp in Hu.
+  rewrite ltb_spec, leb_spec. unfold SFltb, SFleb. rewrite (SFcompare_antisym (Prim2SF e) (Prim2SF u)).
+  destruct (Prim2SF e) as [s1|s1| |s1 m1 e1], (Prim2SF u) as [s2|s2| |s2 m2 e2]; try congruence;
+    simpl; try reflexivity; try (destruct s1; reflexivity); try (destruct s2; reflexivity);
+    try (destruct s1, s2; reflexivity).
+  destruct s1, s2; simpl; try reflexivity; destruct (e1 ?= e2)%Z; simpl; try reflexivity;
+    destruct (Pos.compare_cont Eq m1 m2); reflexivity.
+Qed.
+
+(** with a ratio and a draw that are not nan, the coded test [not (ratio < u)] is [u <= ratio]:
+    a draw equal to the ratio accepts *)
+Theorem accept_le : forall (target : vec -> float) (expf : float -> float) x y u,
+  is_nan (expf (target y - target x)%float) = false -> is_nan u = false ->
+  accept target expf x y u = is_finite (target y) && (u <=? expf (target y - target x))%float.
+Proof.
+  intros target expf x y u He Hu. unfold accept. rewrite tie_accepts; auto.
+Qed.
